@@ -19,7 +19,7 @@ from dsim.seams.simfs import SimFS
 from dsim.seams.simhash import SimBytes
 
 NAME = "wallet"
-PROPS = ["C13", "C07"]
+PROPS = ["C13", "C07", "C06"]
 COMPONENTS = {
     "real": ["pycoin.services.tx_db.TxDb on a simulated disk", "pycoin.coins.tx_utils.create_tx / create_signed_tx / distribute_from_split_pool (three build routes)",
              "Tx.validate_unspents / unspents_from_db / fee / total_in / total_out", "Tx.parse / Tx.stream via cache files",
@@ -31,7 +31,7 @@ RULE = ("plans = ledger x provider behaviour x spendable lies x payable lists (f
         "schedule x crash points; non-trivial iff a lie or storage/provider fault was in effect when a transaction was "
         "validated, a split pool had a remainder, or funds were insufficient")
 FAULT_KINDS = ["spendable_lie_amount", "spendable_lie_script", "spendable_lie_index", "spendable_lie_txid", "provider_fail",
-               "provider_none", "provider_other_tx", "provider_tampered_tx", "fs_open_w_error", "fs_open_r_error",
+               "provider_none", "provider_other_tx", "provider_tampered_tx", "source_returns_stale_object_on_miss", "fs_open_w_error", "fs_open_r_error",
                "fs_write_enospc", "fs_read_eio", "fs_bit_flip", "fs_misdirected_write", "fs_missing_dir", "crash_restart",
                "crash_torn_file", "crash_lost_file", "crash_empty_file"]
 PROBES = ["split_remainder_nonzero", "insufficient_funds_refused", "less_than_one_satoshi_each_refused", "all_outputs_fixed",
@@ -156,7 +156,8 @@ def gen_plan(rng, tier, index, config=None):
                                                                                      "set_unspents_same_list"]),
                           "i": r.bits(8), "delta": r.pick([1, -1, 7, 1000, -1000, 30000])})
         elif op == "attach":
-            steps.append({"op": "attach", "tx": "x%d" % r.below(nbuilt), "ignore_missing": r.chance(0.4)})
+            steps.append({"op": "attach", "tx": "x%d" % r.below(nbuilt), "ignore_missing": r.chance(0.4),
+                          "db": r.weighted([("txdb", 4), ("raw_stale", 1 if faulty else 0)])})
         elif op == "fetch":
             steps.append({"op": "fetch", "tx": "t%d" % r.below(ntx)} if r.chance(0.9) else {"op": "fetch", "hash": r.bytes(32).hex()})
         elif op == "put":
@@ -204,6 +205,22 @@ def gen_plan(rng, tier, index, config=None):
         steps.append({"op": "build", "id": "x%d" % nbuilt, "spend": [{"tx": t, "idx": 0, "lie": {"kind": "amount", "delta": 1000}, "form": "obj"}],
                       "pay": [[r.below(len(keys)), None, "bare"]], "fee": r.pick([0, 1000]), "lock_time": 0, "version": 1})
         steps.append({"op": "validate", "tx": "x%d" % nbuilt, "db": r.pick(["raw", "raw", "txdb"])})
+        nbuilt += 1
+    if faulty and r.chance(0.1):
+        # a signed transaction one of whose inputs spends something nobody has heard of, attached from a source that fails open
+        t = "t%d" % ntx
+        kk = r.below(len(keys))
+        steps.append({"op": "mint", "id": t, "tx": {"version": 1, "ins": [{"prev": r.bytes(32).hex(), "idx": 0, "script": "", "seq": 0xFFFFFFFF,
+                                                                             "witness": []}],
+                                                    "outs": [{"value": 50000, "key": kk}, {"value": 50000, "key": kk}], "locktime": 0}})
+        ntx += 1
+        steps.append({"op": "provider", "p": 0, "mode": "honest"})
+        steps.append({"op": "provider", "p": 1, "mode": "honest"})
+        steps.append({"op": "build", "id": "x%d" % nbuilt, "route": "signed", "container": "list",
+                      "spend": [{"tx": t, "idx": 0, "lie": None, "form": "obj"},
+                                {"tx": t, "idx": 1, "lie": {"kind": "txid", "hash": r.bytes(32).hex()}, "form": "obj"}],
+                      "pay": [[r.below(len(keys)), None, "bare"]], "fee": 1000, "lock_time": 0, "version": 1})
+        steps.append({"op": "attach", "tx": "x%d" % nbuilt, "ignore_missing": r.chance(0.7), "db": "raw_stale"})
         nbuilt += 1
     if faulty and nbuilt and r.chance(0.5):
         # heal: faults stop, providers honest; does the wallet recover? (observation only)
@@ -643,15 +660,22 @@ def _discrepancy(W, rec):
 class _RawDb(object):
     """what a caller passes when it has no TxDb: anything with get(); here the providers, unfiltered"""
 
-    def __init__(self, lookups):
+    def __init__(self, lookups, stale_on_miss=False):
         self.lookups = lookups
         self.lookup_methods = lookups
+        self.stale_on_miss = stale_on_miss
+        self.last = None
 
     def get(self, key):
         for f in self.lookups:
             t = f(key)
             if t is not None:
+                self.last = t
                 return t
+        if self.stale_on_miss and self.last is not None:
+            # a one-slot cache that fails open: asked for something it does not have, it hands back (the very object of)
+            # what it returned last
+            return self.last
         return None
 
 
@@ -751,10 +775,14 @@ def _op_attach(ctx, W, st):
     t2 = copy.deepcopy(tx)
     t2.unspents = []
     ctx.probe("attach_unspents")
+    db = W.db
+    if st.get("db") == "raw_stale":
+        db = _RawDb([_provider(W, ctx, p) for p in sorted(W.providers)], stale_on_miss=True)
+        ctx.fault("source_returns_stale_object_on_miss")
     if st.get("ignore_missing"):
         # spent outputs the source cannot supply stay unknown: no fee is reported and the input is never valid
         try:
-            t2.unspents_from_db(W.db, ignore_missing=True)
+            t2.unspents_from_db(db, ignore_missing=True)
         except Exception as e:
             ctx.obs("attach", "raised", type(e).__name__)
             return
@@ -762,6 +790,15 @@ def _op_attach(ctx, W, st):
         unknown = [j for j, u in enumerate(t2.unspents) if u is None]
         ctx.obs("attach", "ignore_missing", unknown)
         for j, u in enumerate(t2.unspents):
+            if truth[j] is None:
+                # the source of this input is unknown to everybody: whatever was attached, the input is never valid (C06)
+                try:
+                    okj = t2.is_solution_ok(j)
+                except Exception:
+                    okj = False
+                if okj:
+                    ctx.violate("C06", "valid-without-spent-output", {"input": j, "attached": None if u is None else u.coin_value,
+                                                                     "source": st.get("db", "txdb")})
             if u is not None and (truth[j] is None or (u.coin_value, bytes(u.script)) != truth[j]):
                 ctx.violate("C13", "unspents-from-db-wrong-output", {"input": j, "ignore_missing": True})
                 return
@@ -775,7 +812,7 @@ def _op_attach(ctx, W, st):
                 pass
         return
     try:
-        t2.unspents_from_db(W.db)
+        t2.unspents_from_db(db)
         fee = t2.fee()
     except Exception as e:
         ctx.obs("attach", "raised", type(e).__name__)
